@@ -125,12 +125,16 @@ def _find_candidate_type_args(t_param: tp.TypeParameter,
             base_targ.bound,
             types, get_subtypes, True, bound,
             concrete_only=True)
-        new_types.extend([tp.WildCardType(t, tp.Covariant)
-                          for t in new_types])
+        projected = [tp.WildCardType(t, tp.Covariant) for t in new_types]
+        # A supertype of a projected type argument is itself projected.
+        new_types = new_types + projected if get_subtypes else projected
     elif base_targ.is_contravariant():
         new_types = _find_types(
             base_targ.bound, types,
             not get_subtypes, True, bound, concrete_only=True)
+        if not get_subtypes:
+            new_types = [tp.WildCardType(t, tp.Contravariant)
+                         for t in new_types]
     else:
         new_types = []
     t_args.extend(new_types)
